@@ -3,9 +3,14 @@ androguard/core/apk/__init__.py, androguard/core/resources/public.xml  ->  lean/
 
 AST extraction (no import of androguard):
   * the chunk-type / flag / attribute-layout constants of the AXML module and the TYPE_* constants,
-  * the character classes of the three regular expressions of `_fix_name` / `_fix_value`
-    (a regular expression of another shape makes the translator fail -> broken obligation),
-  * the literal strings `_fix_name` tests ("android:", ":", "_") and the replacement character,
+  * the character classes of the regular expressions of `_fix_name` / `_fix_value`: the class that is TESTED (`^[C]*$` with
+    match) and the class that is KEPT (`[^C]` with sub).  Read semantically: `re.match(P, x)`, `re.compile(P).match(x)` and
+    `NAME.match(x)` / `self.attr.match(x)` with the name bound once to `re.compile(P)` at module, class or function level are the
+    same operation; P may be a literal, a module-level string constant or a concatenation of such.  For `_fix_value` the test
+    may also be `search` for `[^C]` (equivalent to `^[C]*$` because "\n" is in C).  A regular expression of another shape, flags,
+    a second test or a re-bound name make the translator fail -> broken obligation,
+  * the literal strings `_fix_name` tests ("android:", ":", "_"), format templates in one normal form (str.format and f-strings),
+    and the repair of an invalid first character, obtained by EVALUATING the repair expression on a probe name,
   * the hard-coded numbers of AXMLParser / ARSCHeader (header sizes 8, 0x1C, 0x10, attribute size 20),
   * NS_ANDROID_URI and the tag / attribute / intent constants the APK manifest queries use,
   * the table public.xml -> attribute id -> name (parsed with xml.dom.minidom exactly as
@@ -68,17 +73,171 @@ def _parse_class(body: str):
     return out
 
 
-def _regexes(fn):
-    """every string literal of the form ^[class]*$ (anchored match) or [^class] (replacement)"""
-    anchored, negated = [], []
-    for s in _strings(fn):
-        m = re.fullmatch(r"\^\[([^\]]+)\]\*\$", s, re.S)
-        if m:
-            anchored.append(_parse_class(m.group(1))); continue
-        m = re.fullmatch(r"\[\^([^\]]+)\]", s, re.S)
-        if m:
-            negated.append(_parse_class(m.group(1)))
-    return anchored, negated
+def _class_of(tree, cls):
+    for n in tree.body:
+        if isinstance(n, ast.ClassDef) and n.name == cls:
+            return n
+    raise Unrecognised(f"class {cls} not found")
+
+
+def _str_value(node, consts):
+    """the string an expression denotes, by local reasoning only: a literal, a module-level string constant, a concatenation of
+    such, an f-string without fields.  None when it cannot be told."""
+    if isinstance(node, ast.Constant) and isinstance(node.value, str):
+        return node.value
+    if isinstance(node, ast.Name) and isinstance(consts.get(node.id), str):
+        return consts[node.id]
+    if isinstance(node, ast.JoinedStr) and all(isinstance(v, ast.Constant) for v in node.values):
+        return "".join(v.value for v in node.values)
+    if isinstance(node, ast.BinOp) and isinstance(node.op, ast.Add):
+        a, b = _str_value(node.left, consts), _str_value(node.right, consts)
+        return None if a is None or b is None else a + b
+    return None
+
+
+def _is_re_call(node, names):
+    return (isinstance(node, ast.Call) and isinstance(node.func, ast.Attribute) and isinstance(node.func.value, ast.Name)
+            and node.func.value.id == "re" and node.func.attr in names)
+
+
+def _compiled_patterns(tree, cls, fn, consts):
+    """every name that is bound ONCE to `re.compile(<string>)`: module-level names, class attributes, and `self.<attr>`
+    assigned inside the function (the lazily compiled `self.__charrange`).  key: ("name", id) / ("attr", attr)"""
+    found = {}
+
+    def record(key, call):
+        pat = _str_value(call.args[0], consts) if call.args else None
+        if pat is None or len(call.args) > 1 or call.keywords:
+            found[key] = None                      # flags or a computed pattern: not understood
+        else:
+            found[key] = pat if key not in found else None
+
+    for n in tree.body:
+        if isinstance(n, ast.Assign) and len(n.targets) == 1 and isinstance(n.targets[0], ast.Name) and _is_re_call(n.value, ("compile",)):
+            record(("name", n.targets[0].id), n.value)
+    for n in _class_of(tree, cls).body:
+        if isinstance(n, ast.Assign) and len(n.targets) == 1 and isinstance(n.targets[0], ast.Name) and _is_re_call(n.value, ("compile",)):
+            record(("attr", n.targets[0].id), n.value)
+    for n in ast.walk(fn):
+        if isinstance(n, ast.Assign) and len(n.targets) == 1 and _is_re_call(n.value, ("compile",)):
+            t = n.targets[0]
+            if isinstance(t, ast.Attribute) and isinstance(t.value, ast.Name) and t.value.id == "self":
+                record(("attr", t.attr), n.value)
+            elif isinstance(t, ast.Name):
+                record(("name", t.id), n.value)
+    return found
+
+
+def _regex_uses(tree, cls, fn, consts):
+    """[(method, pattern)] for every regular-expression operation of the function, whether written `re.match(P, x)`,
+    `re.compile(P).match(x)` or `<NAME | self.attr | Class.attr>.match(x)` with the name bound once to `re.compile(P)`"""
+    compiled = _compiled_patterns(tree, cls, fn, consts)
+    ops = ("match", "fullmatch", "search", "sub", "subn", "findall", "finditer", "split")
+    uses = []
+    for n in ast.walk(fn):
+        if not (isinstance(n, ast.Call) and isinstance(n.func, ast.Attribute) and n.func.attr in ops):
+            continue
+        obj = n.func.value
+        if isinstance(obj, ast.Name) and obj.id == "re":
+            pat = _str_value(n.args[0], consts) if n.args else None
+            if pat is None and n.args and isinstance(n.args[0], ast.Name) and ("name", n.args[0].id) in compiled:
+                pat = compiled[("name", n.args[0].id)]
+            if pat is None or any(k.arg == "flags" for k in n.keywords):
+                raise Unrecognised(f"regular expression of re.{n.func.attr} at line {n.lineno} is not a plain string")
+            uses.append((n.func.attr, pat))
+        elif _is_re_call(obj, ("compile",)):
+            pat = _str_value(obj.args[0], consts) if len(obj.args) == 1 and not obj.keywords else None
+            if pat is None:
+                raise Unrecognised(f"regular expression compiled at line {n.lineno} is not a plain string")
+            uses.append((n.func.attr, pat))
+        else:
+            key = None
+            if isinstance(obj, ast.Name):
+                key = ("name", obj.id)
+            elif isinstance(obj, ast.Attribute) and isinstance(obj.value, ast.Name) and obj.value.id in ("self", cls, "cls"):
+                key = ("attr", obj.attr)
+            if key in compiled:
+                if compiled[key] is None:
+                    raise Unrecognised(f"compiled pattern {key[1]} is bound more than once or not to a plain string")
+                uses.append((n.func.attr, compiled[key]))
+            # any other `.match` / `.sub` (e.g. str.split) is not a regular-expression operation we can attribute
+    return uses
+
+
+def _fix_classes(tree, cls, fname, consts, newline_loophole):
+    """(matchClass, keepClass) of `_fix_name` / `_fix_value`.
+    keepClass: the class C of the one `sub` with pattern `[^C]`.
+    matchClass: the class C of the one test `match` with pattern `^[C]*$`; or, when the function instead tests
+    `search` with the pattern `[^C]` ("is there an offending character"), that same C -- the two tests are equivalent exactly
+    when the `$`-before-a-final-newline loophole of `^[C]*$` is void, i.e. "\n" is in C, and only for the function whose
+    model has no loophole (`newline_loophole=False`, `_fix_value`).  Anything else is not understood."""
+    fn = _find(tree, cls, fname)
+    uses = _regex_uses(tree, cls, fn, consts)
+    anchored = [(m, p) for m, p in uses if re.fullmatch(r"\^\[([^\]]+)\]\*\$", p, re.S)]
+    negated = [(m, p) for m, p in uses if re.fullmatch(r"\[\^([^\]]+)\]", p, re.S)]
+    if len(anchored) + len(negated) != len(uses):
+        raise Unrecognised(f"{fname}: a regular expression of another shape: {[p for _, p in uses if (_, p) not in anchored + negated]!r}")
+    subs = [p for m, p in negated if m == "sub"]
+    if len(subs) != 1:
+        raise Unrecognised(f"{fname}: expected exactly one sub() with a negated class, got {len(subs)}")
+    keep = _parse_class(re.fullmatch(r"\[\^([^\]]+)\]", subs[0], re.S).group(1))
+    tests = [(m, p) for m, p in anchored] + [(m, p) for m, p in negated if m != "sub"]
+    if len(tests) != 1:
+        raise Unrecognised(f"{fname}: expected exactly one regular-expression test, got {len(tests)}")
+    m, p = tests[0]
+    if m == "match" and (m, p) in anchored:
+        match = _parse_class(re.fullmatch(r"\^\[([^\]]+)\]\*\$", p, re.S).group(1))
+        if not newline_loophole and not any(a <= 0x0A <= b for a, b in match):
+            raise Unrecognised(f"{fname}: `$` would accept a final newline that is not in the class (not modelled)")
+    elif m == "search" and (m, p) in negated and not newline_loophole:
+        match = _parse_class(re.fullmatch(r"\[\^([^\]]+)\]", p, re.S).group(1))
+        if not any(a <= 0x0A <= b for a, b in match):
+            raise Unrecognised(f"{fname}: search for an offending character is not the modelled `^[class]*$` test here")
+    else:
+        raise Unrecognised(f"{fname}: regular-expression test {m}({p!r}) is not understood")
+    return match, keep
+
+
+def _templates(fn):
+    """string constants of a function, plus every format template in one normal form: `"a{:08x}".format(v)` and
+    `f"a{v:08x}"` both give "a{:08x}" (field names and positions dropped)"""
+    out = set(_strings(fn))
+    for n in ast.walk(fn):
+        if isinstance(n, ast.JoinedStr):
+            t = ""
+            for v in n.values:
+                if isinstance(v, ast.Constant):
+                    t += str(v.value)
+                else:
+                    spec = ""
+                    if v.format_spec is not None:
+                        if not all(isinstance(x, ast.Constant) for x in v.format_spec.values):
+                            spec = "?"
+                        else:
+                            spec = ":" + "".join(str(x.value) for x in v.format_spec.values)
+                    t += "{" + spec + "}"
+            out.add(t)
+        if isinstance(n, ast.Call) and isinstance(n.func, ast.Attribute) and n.func.attr == "format" and \
+                isinstance(n.func.value, ast.Constant) and isinstance(n.func.value.value, str):
+            out.add(re.sub(r"\{[A-Za-z_0-9]*", "{", n.func.value.value))
+    return out
+
+
+def _start_fix(fn):
+    """the character `_fix_name` puts in front of a name with an invalid first character: the statement `name = <expr>` under the
+    `isalpha` test is evaluated on a probe (so "_{}".format(name), "_" + name, f"_{name}", "%s%s" % ("_", name) all read "_")"""
+    for n in ast.walk(fn):
+        if isinstance(n, ast.If) and any(isinstance(x, ast.Attribute) and x.attr == "isalpha" for x in ast.walk(n.test)):
+            for st in n.body:
+                if isinstance(st, ast.Assign) and len(st.targets) == 1 and isinstance(st.targets[0], ast.Name) and st.targets[0].id == "name":
+                    try:
+                        val = eval(compile(ast.Expression(st.value), "<fix_name>", "eval"), {"__builtins__": {}}, {"name": "\x01probe"})
+                    except Exception as e:  # noqa
+                        raise Unrecognised(f"_fix_name: cannot evaluate the repair of the first character: {e}")
+                    if isinstance(val, str) and len(val) == len("\x01probe") + 1 and val.endswith("\x01probe"):
+                        return val[0]
+                    raise Unrecognised("_fix_name: the repair of the first character is not 'one character + name'")
+    raise Unrecognised("_fix_name: the isalpha test / repair of the first character was not found")
 
 
 def _lean_ranges(r):
@@ -108,20 +267,21 @@ def generate(repo):
             raise Unrecognised(f"constant {k} not found")
         lines.append(f"def {k} : Nat := 0x{c[k]:X}")
     # regular expressions
-    a1, n1 = _regexes(_find(tree, "AXMLPrinter", "_fix_name"))
-    a2, n2 = _regexes(_find(tree, "AXMLPrinter", "_fix_value"))
-    if len(a1) != 1 or len(n1) != 1 or len(a2) != 1 or len(n2) != 1:
-        raise Unrecognised(f"expected one anchored and one negated class in _fix_name and _fix_value, got {len(a1)},{len(n1)},{len(a2)},{len(n2)}")
-    lines += ["", "/-- `^[...]*$` tested by `_fix_name` -/", f"def nameMatchClass : List (Nat × Nat) := {_lean_ranges(a1[0])}",
-              "/-- `[^...]` replaced by `_fix_name` -/", f"def nameKeepClass : List (Nat × Nat) := {_lean_ranges(n1[0])}",
-              "/-- `^[...]*$` tested by `_fix_value` -/", f"def valueMatchClass : List (Nat × Nat) := {_lean_ranges(a2[0])}",
-              "/-- `[^...]` replaced by `_fix_value` -/", f"def valueKeepClass : List (Nat × Nat) := {_lean_ranges(n2[0])}"]
-    fn = _strings(_find(tree, "AXMLPrinter", "_fix_name"))
-    fv = _strings(_find(tree, "AXMLPrinter", "_fix_value"))
-    for lit, where in (("android:", fn), (":", fn), ("_", fn), ("_{}", fn), ("android", fn), ("\x00", fv), ("_", fv)):
+    m1, k1 = _fix_classes(tree, "AXMLPrinter", "_fix_name", c, newline_loophole=True)
+    m2, k2 = _fix_classes(tree, "AXMLPrinter", "_fix_value", c, newline_loophole=False)
+    lines += ["", "/-- `^[...]*$` tested by `_fix_name` -/", f"def nameMatchClass : List (Nat × Nat) := {_lean_ranges(m1)}",
+              "/-- `[^...]` replaced by `_fix_name` -/", f"def nameKeepClass : List (Nat × Nat) := {_lean_ranges(k1)}",
+              "/-- `^[...]*$` tested by `_fix_value` -/", f"def valueMatchClass : List (Nat × Nat) := {_lean_ranges(m2)}",
+              "/-- `[^...]` replaced by `_fix_value` -/", f"def valueKeepClass : List (Nat × Nat) := {_lean_ranges(k2)}"]
+    f_name = _find(tree, "AXMLPrinter", "_fix_name")
+    fn = _templates(f_name)
+    fv = _templates(_find(tree, "AXMLPrinter", "_fix_value"))
+    if _start_fix(f_name) != "_":
+        raise Unrecognised("_fix_name no longer prefixes an invalid first character with '_'")
+    for lit, where in (("android:", fn), (":", fn), ("_", fn), ("android", fn), ("\x00", fv), ("_", fv)):
         if lit not in where:
             raise Unrecognised(f"literal {lit!r} no longer occurs in _fix_name/_fix_value")
-    gan = _strings(_find(tree, "AXMLParser", "getAttributeName"))
+    gan = _templates(_find(tree, "AXMLParser", "getAttributeName"))
     for lit in ("_", ":", "android:UNKNOWN_SYSTEM_ATTRIBUTE_{:08x}"):
         if lit not in gan:
             raise Unrecognised(f"literal {lit!r} no longer occurs in getAttributeName")
@@ -129,6 +289,18 @@ def generate(repo):
     # numeric literals of the parser that the model hard-codes: check they are still there
     nums = {x.value for x in ast.walk(_find(tree, "AXMLParser", "__init__")) if isinstance(x, ast.Constant) and isinstance(x.value, int)}
     nums |= {x.value for x in ast.walk(_find(tree, "AXMLParser", "_do_next")) if isinstance(x, ast.Constant) and isinstance(x.value, int)}
+    # one level into private helpers (`self._read_u32()` …) and module-level integer constants used by name
+    for fnode in (_find(tree, "AXMLParser", "__init__"), _find(tree, "AXMLParser", "_do_next")):
+        for x in ast.walk(fnode):
+            if isinstance(x, ast.Call) and isinstance(x.func, ast.Attribute) and isinstance(x.func.value, ast.Name) and \
+                    x.func.value.id == "self" and x.func.attr.startswith("_"):
+                try:
+                    h = _find(tree, "AXMLParser", x.func.attr)
+                except Unrecognised:
+                    continue
+                nums |= {y.value for y in ast.walk(h) if isinstance(y, ast.Constant) and isinstance(y.value, int)}
+            if isinstance(x, ast.Name) and isinstance(c.get(x.id), int):
+                nums.add(c[x.id])
     for v in (8, 0x1C, 0x10, 20, 24, 16, 0xFFFF, 0xFFFFFFFF):
         if v not in nums:
             raise Unrecognised(f"numeric literal {v} no longer occurs in AXMLParser.__init__/_do_next")
